@@ -89,6 +89,9 @@ func genC08(t *rapid.T, tier string) (*World, any) {
 	// programs; the same stored-expression and definition names are used in different files
 	opts := ProgOpts{Spicy: chance(t, 20, "spicy"), Flags: true, PrefixSufx: true, Blocks: true, Cmdline: true, Defs: true,
 		Includes: []string{"inc1", "inc2"}, Pairs: true, Comments: true, MaxLines: 7, StoredNames: true}
+	if tier == "thorough" {
+		opts.MaxLines = 16
+	}
 	progs := map[string][]string{}
 	for _, name := range targets {
 		info := drawProgram(t, opts, "prog")
